@@ -115,6 +115,21 @@ func (sc *SpecScope) lookupType(name string) types.Type {
 			return o.Type()
 		}
 	}
+	// a contract of another repository package evaluated here (e.g. gts.ParseLocation called from
+	// seqio): the name is resolved in the one loaded package that declares it
+	var found types.Type
+	n := 0
+	for _, p := range c.eng.pkgs {
+		if o := p.Types.Scope().Lookup(name); o != nil {
+			if _, ok := o.(*types.TypeName); ok {
+				found = o.Type()
+				n++
+			}
+		}
+	}
+	if n == 1 {
+		return found
+	}
 	return nil
 }
 
